@@ -75,14 +75,7 @@ func r031(c *Ctx, rule string) {
 		}
 	}
 	c.ob(rule, "Drain/one-shared-deadline", fn.Pos(), nAfter == 1 && deadline != nil, true, "exactly one time.After(timeout) on the drain-timeout parameter, created outside the per-request loop")
-	// restore of the pre-drain state is deferred and uses the value returned by the marking call
-	restoreOK := false
-	for _, cs := range callsTo(fn, upd) {
-		if d, ok := cs.instr.(*ssa.Defer); ok && d.Call.Args[1] == ssa.Value(mark) {
-			restoreOK = true
-		}
-	}
-	c.ob(rule, "Drain/restores-pre-drain-state", fn.Pos(), restoreOK, true, "Drain must defer updateState(<state returned by the marking call>)")
+	drainRestores(c, rule, fn, upd, mark, draining)
 	// wait select
 	sels := selectsIn(fn)
 	if len(sels) != 1 {
@@ -154,10 +147,17 @@ func r031(c *Ctx, rule string) {
 		c.ob(rule, "write inflightRequest.hijacked <- "+o, w.instr.Pos(), ok, false, "the hijacked flag (which makes Drain cut a request off at once) may be set only by targetResponseWriter.Hijack")
 	}
 	if c.ob(rule, "Drain/has-unconditional-cancel-all", fn.Pos(), len(all) >= 1, true, "there must be a loop cancelling every snapshot entry unconditionally") {
-		hdr := loopNext(all[0].in)
-		ok := hdr != nil
+		hdrs := map[ssa.Instruction]bool{}
+		ok := true
+		for _, a := range all {
+			if hdr := loopNext(a.in); hdr != nil {
+				hdrs[hdr] = true
+			} else {
+				ok = false
+			}
+		}
 		if ok {
-			_, skip := reach(fn, sel, isReturn, func(in ssa.Instruction) bool { return in == ssa.Instruction(hdr) })
+			_, skip := reach(fn, sel, isReturn, func(in ssa.Instruction) bool { return hdrs[in] })
 			ok = !skip
 		}
 		c.ob(rule, "Drain/every-exit-of-wait-reaches-cancel-all", sel.Pos(), ok, true, "every path from the wait (completion or deadline) to return must run the cancel-all loop")
@@ -172,6 +172,55 @@ func r031(c *Ctx, rule string) {
 		}
 		c.ob(rule, "Drain/loops-range-over-snapshot", fn.Pos(), okRange, true, "all loops of Drain must range over the snapshot value")
 	}
+}
+
+// drainRestores: every exit of Drain reachable from the marking call puts the pre-drain state back (a deferred
+// updateState(<value returned by the marking call>), or an explicit one on every path), except the exit taken when
+// the target was already draining (the drain in progress restores it).
+func drainRestores(c *Ctx, rule string, fn, upd *ssa.Function, mark *ssa.Call, draining int64) {
+	isRestore := func(in ssa.Instruction) bool {
+		ci, ok := in.(ssa.CallInstruction)
+		return ok && isCallTo(ci.Common(), upd) && len(ci.Common().Args) == 2 && ci.Common().Args[1] == ssa.Value(mark)
+	}
+	var deferred []ssa.Instruction
+	for _, cs := range callsTo(fn, upd) {
+		if d, ok := cs.instr.(*ssa.Defer); ok && isRestore(d) {
+			deferred = append(deferred, d)
+		}
+	}
+	n, restoreOK := 0, true
+	var bad ssa.Instruction
+	for _, ret := range normalReturns(fn) {
+		if _, reaches := reach(fn, mark, func(in ssa.Instruction) bool { return in == ssa.Instruction(ret) }, nil); !reaches {
+			continue
+		}
+		lo, hi, _ := interval(intFacts(ret, func(v ssa.Value) bool { return v == ssa.Value(mark) }))
+		if lo == draining && hi == draining {
+			continue // already draining when called
+		}
+		n++
+		ok := false
+		for _, d := range deferred {
+			if dominates(d, ret) {
+				ok = true
+			}
+		}
+		if !ok {
+			_, skips := reach(fn, mark, func(in ssa.Instruction) bool { return in == ssa.Instruction(ret) }, func(in ssa.Instruction) bool {
+				_, isCall := in.(*ssa.Call)
+				return isCall && isRestore(in)
+			})
+			ok = !skips
+		}
+		if !ok {
+			restoreOK, bad = false, ret
+		}
+	}
+	pos := fn.Pos()
+	if bad != nil {
+		pos = bad.Pos()
+	}
+	c.ob(rule, "Drain/restores-pre-drain-state", pos, restoreOK && n >= 1, true, "every exit of Drain (completion and deadline alike) must put back the state returned by the marking call, by a deferred or explicit updateState: a target left 'draining' refuses every later request")
 }
 
 // dominatingCondsOtherThanLoop: conditions controlling `in` other than range/loop continuation tests.
